@@ -90,6 +90,19 @@ def strip_comments(src):
         elif src.startswith('--', i):
             while i < n and src[i] != '\n':
                 i += 1
+        elif src[i] == "'" and i + 2 < n and src[i + 1] != '\\' and src[i + 2] == "'":
+            out.append("' '")          # character literal such as '"' or '<'
+            i += 3
+        elif src[i] == "'" and i + 3 < n and src[i + 1] == '\\':
+            j = src.find("'", i + 3) if src[i + 2] != "'" else i + 3
+            if src[i + 2] == "'":
+                j = i + 3
+            if 0 < j - i <= 8:
+                out.append("' '")      # escaped character literal such as '\n', '\'' or '\x0b'
+                i = j + 1
+            else:
+                out.append(src[i])
+                i += 1
         elif src[i] == '"':
             i += 1
             while i < n and src[i] != '"':
